@@ -796,9 +796,9 @@ def run_shard(args):
         if what == 'c07':
             cases = node_cases(tree) + slice_cases(tree, rng, conf.get('max_per_field', 12))
             rng.shuffle(cases)
-            cases = cases[:conf['cases']]
+            cases = _prioritise(cases, conf['cases'])
             for k, case in enumerate(cases):
-                o = dict(rng.choice(OPTION_POOL))
+                o = dict(rng.choice(DOCSTR_POOL if case.get('mlstr') and rng.random() < 0.6 else OPTION_POOL))
                 case['op'] = rng.choice(SLICE_OPS if case['slice'] else NODE_OPS)
                 info = {'what': 'c07', 'case': {a: case[a] for a in ('path', 'field', 'start', 'stop', 'slice', 'op', 'kind', 'emptied')},
                         'opts': o}
@@ -807,7 +807,7 @@ def run_shard(args):
             cases = node_cases(tree) + slice_cases(tree, rng, conf.get('max_per_field', 12))
             rng.shuffle(cases)
             ro = FST(src, 'exec')
-            for k, case in enumerate(cases[:conf['cases']]):
+            for k, case in enumerate(_prioritise(cases, conf['cases'])):
                 o = dict(rng.choice(RT_OPTIONS))
                 case['op'] = rng.choice(SLICE_OPS if case['slice'] else NODE_OPS)
                 info = {'what': 'c08', 'case': {a: case[a] for a in ('path', 'field', 'start', 'stop', 'slice', 'op', 'kind')},
@@ -848,6 +848,26 @@ def run_shard(args):
         meta[tid] = {'prog': prog, 'variant': variant, 'seed': seed, 'what': what, 'src': src, 'infos': infos}
     batch = dict(rec.dump(), traces=traces)
     return batch, meta
+
+
+DOCSTR_POOL = [{'docstr': 'strict'}, {'docstr': False}, {'docstr': True}, {'docstr': 'strict', 'trivia': 'all'}, {}]
+
+
+def _has_mlstr(elems):
+    return any(isinstance(a, ast.Constant) and isinstance(a.value, str) and '\n' in a.value
+               for e in elems for a in ast.walk(e))
+
+
+def _prioritise(cases, n):
+    """First n cases of the (already shuffled) list, but with up to n // 4 cases whose elements hold a multi-line string
+    moved to the front (the docstring clauses are only exercised there)."""
+    for c in cases:
+        c['mlstr'] = _has_mlstr(c.get('elems') or [])
+    if n >= len(cases):
+        return cases
+    special = [c for c in cases if c['mlstr']][:max(1, n // 4)]
+    ids = {id(c) for c in special}
+    return special + [c for c in cases if id(c) not in ids][:n - len(special)]
 
 
 RT_OPTIONS = [{}, {}, {}, {'trivia': False}, {'trivia': 'all'}, {'trivia': ('all', 'all')}, {'trivia': ('block', 'block')},
